@@ -260,6 +260,8 @@ module Z :
 
   val to_nat : z -> nat
 
+  val to_N : z -> n
+
   val of_nat : nat -> z
 
   val of_N : n -> z
@@ -1970,6 +1972,20 @@ val show_res_dict : oval dict res -> string
 
 val run_options : tok list -> string
 
+val utf8_encode1 : z -> z list
+
+val bytes_to_string : z list -> string
+
+val utf8_string : ustr -> string
+
+val assocZ : (z * 'a1) list -> z -> 'a1 -> 'a1
+
+val memZ : z -> z list -> bool
+
+val to_pcand : profile0 -> z -> pcand
+
+val to_count_profile : profile0 -> profile
+
 val show_resZ : z res -> string
 
 val show_resB : bool res -> string
@@ -2014,6 +2030,10 @@ val show_cids : arith -> cand list -> string
 
 val show_outcome : arith -> meth -> outcome -> string
 
+val run_case : count_case -> string
+
 val run_count_case : tok list -> string
+
+val run_e2e : tok list -> string
 
 val run : tok list -> string
